@@ -36,11 +36,16 @@ def _jobs_for(ctx, mods, mode, given=None, aligned=True):
 
 def _akey(key, var):
     """observations through a statically aligned view: unknown mechanisms are keyed apart from the plain view's"""
-    return key if var is None or not key.startswith("scalar-") else "aligned-view:" + key
+    if var is None or not key.startswith("scalar-"):
+        return key
+    return ("char-storage-view:" if var[0] < 0 else "aligned-view:") + key
 
 
 def _amsg(var):
-    return "" if var is None else " [through a view with static alignment %d at an address that is %d mod %d]" % (var[0], var[1], var[0])
+    if var is None:
+        return ""
+    return " [through a view over %s storage with static alignment %d at an address that is %d mod %d]" % (
+        "(signed) char" if var[0] < 0 else "unsigned char", abs(var[0]), var[1], abs(var[0]))
 
 
 def _replay(m, acc, **kw):
@@ -91,7 +96,8 @@ def evaluate(ctx, mods, mode, tag, given=None, count=True, aligned=True):
             for vi, var in enumerate([None] + list(cs.get("aligned", []) if aligned_ok else [])):
                 aid = acc.id + gen_bits.ALIGNED_ID * vi
                 R, W = (reads, writes) if var is None else (areads, awrites)
-                vw = {} if var is None else dict(view="static alignment %d, buffer address = %d mod %d" % (var[0], var[1], var[0]))
+                vw = {} if var is None else dict(view="%s storage, static alignment %d, buffer address = %d mod %d" % (
+                    "char" if var[0] < 0 else "unsigned char", abs(var[0]), var[1], abs(var[0])))
                 if mode != "write":
                     for b, root in enumerate(cs["read_bufs"]):
                         o = R.get((aid, b))
@@ -108,7 +114,7 @@ def evaluate(ctx, mods, mode, tag, given=None, count=True, aligned=True):
                             ctx.case(("r", acc.key(), bytes(root), m.opt), nontrivial=gen_bits.spec_complete(acc, root),
                                      sample=dict(accessor=acc.describe(), buffer=gen_bits.hexs(root), cpp=o["line"]))
                         if count and var is not None:
-                            ctx.count("aligned-view-read:A=%d" % var[0])
+                            ctx.count(("char-storage-view-read:A=%d" if var[0] < 0 else "aligned-view-read:A=%d") % abs(var[0]))
                             ctx.case(("ra", acc.key(), bytes(root), m.opt, var), nontrivial=gen_bits.spec_complete(acc, root))
                         bad = gen_bits.check_read(acc, root, o)
                         if bad:
@@ -141,7 +147,7 @@ def evaluate(ctx, mods, mode, tag, given=None, count=True, aligned=True):
                                              sample=dict(accessor=acc.describe(), buffer=gen_bits.hexs(root),
                                                          argument_type=gen_bits.cty_name(t), value=v, cpp=o["line"]))
                                 if count and var is not None:
-                                    ctx.count("aligned-view-write:A=%d" % var[0])
+                                    ctx.count(("char-storage-view-write:A=%d" if var[0] < 0 else "aligned-view-write:A=%d") % abs(var[0]))
                                     ctx.case(("wa", acc.key(), bytes(root), t, v, m.opt, var), nontrivial=gen_bits.spec_complete(acc, root))
                                 bad = gen_bits.check_write(acc, root, t, v, o)
                                 if bad:
